@@ -1033,6 +1033,11 @@ namespace fixedmath
       x = -x;
       sign_ = true;
       }
+    //above 2^29 arctan differs from its value at 2^29 by less than 2^-29,
+    //x*c and (x-c)<<16 in atan_sum would overflow for larger arguments
+    constexpr fixed_internal x_limit { fixed_internal(1) << 45 };
+    if( fixed_unlikely( x > x_limit ) )
+      x = x_limit;
     fixed_internal result{};
     if( x < _7o16 ) 
       result = atan<prec_>( x );
